@@ -56,14 +56,17 @@ Fixpoint scan (f : list value -> list nat) (last : option (list nat)) (inp : lis
   end.
 
 (* input_shape(inp, container_ndim) with c = container_ndim - 1 (the value after the decrement
-   on its first line; c = 0 also stands for the negative values, which behave the same) *)
+   on its first line; c = 0 also stands for the negative values, which behave the same).
+   When the loop ends without a common sub-shape and c > 0 the shape is the one-element tuple holding
+   the number of elements flatten() yields at this depth (for an empty inp that is [0] = [len(inp)]). *)
 Fixpoint shape_rec (c : nat) (inp : list value) : list nat :=
   match c with
   | 0 => [List.length inp]
   | S c' =>
       match scan (shape_rec c') None inp with
       | Some s => List.length inp :: s           (* shape.extend(last_shape) *)
-      | None => [List.length inp]                (* last_shape is None: shape stays [len(inp)] *)
+      | None =>                                  (* elif container_ndim > 0:  (no rectangular shape) *)
+          [List.length (flatten (S c) inp)]      (*   shape = [len(list(flatten(inp, max_depth=container_ndim + 1)))] *)
       end
   end.
 
